@@ -76,7 +76,13 @@ def unit_dtnw(sess, ctx):
     install_math(eng)
     fi = ctx.fi(QC + "_duration_to_nb_windows")
     mod = fi.module
-    eps_src = eng_const(eng, mod, "_EPSILON")
+    # the tolerance split() must hand over is the literal 1e-9 of the statement (obligation C06:split:tolerance-is-1e-9), whatever
+    # the module calls its constant
+    import ast as _ast
+    from pyvc.engine import State as _State
+    if eng.st is None:
+        eng.st = _State()
+    eps_src = eng.eval(_ast.Constant(value=1e-9), Frame(None, {}, mod))
     slices = list(range(-82, 1)) + ["tiny", "bigint"]
     P6 = ("C06",)
 
